@@ -38,7 +38,11 @@ type Field struct {
 	Raw  func(x Elem) *big.Int // the integer x stands for (any representative)
 	Same func(a, b Elem) bool  // bit-identical representation
 
-	Junk *big.Int                    // outputs are pre-filled with this value (exposes stale-output dependence)
+	// Norm maps an integer to the canonical integer of its class (default: v mod P).
+	// Packed multi-coordinate fields reduce coordinate-wise here.
+	Norm func(v *big.Int) *big.Int
+
+	Junk *big.Int                   // outputs are pre-filled with this value (exposes stale-output dependence)
 	Par  func(n int, f func(i int)) // parallel for
 
 	junkE    Elem
@@ -65,8 +69,9 @@ func (f *Field) Prepare(label string, ops []Operand) *Set {
 		}
 		s.Ops = append(s.Ops, o)
 		s.E = append(s.E, e)
-		s.Red = append(s.Red, new(big.Int).Mod(o.V, f.P))
-		if o.V.Cmp(f.P) >= 0 {
+		red := f.norm(new(big.Int), o.V)
+		s.Red = append(s.Red, red)
+		if o.V.Cmp(red) != 0 {
 			s.Unred++
 		}
 	}
@@ -87,6 +92,13 @@ func (s *Set) Sub(label string, keep func(i int, o Operand) bool) *Set {
 }
 
 func (s *Set) Len() int { return len(s.Ops) }
+
+func (f *Field) norm(out, v *big.Int) *big.Int {
+	if f.Norm != nil {
+		return out.Set(f.Norm(v))
+	}
+	return out.Mod(v, f.P)
+}
 
 func (f *Field) par(n int, fn func(i int)) {
 	if f.Par != nil {
@@ -134,8 +146,9 @@ func try(fn func()) (what string) {
 }
 
 func (f *Field) rng(vs ...*big.Int) string {
+	t := new(big.Int)
 	for _, v := range vs {
-		if v != nil && v.Cmp(f.P) >= 0 {
+		if v != nil && f.norm(t, v).Cmp(v) != 0 {
 			return "unreduced"
 		}
 	}
@@ -166,8 +179,9 @@ type BinOp struct {
 	Name    string
 	Do      func(z, x, y Elem)
 	Ref     func(out, x, y, p *big.Int) bool // out = exact result mod p; false = undefined for these operands
-	Canon   bool                              // the result must be the representative below p
-	NoAlias bool                              // skip aliasing patterns (API forbids them)
+	Canon   bool                             // the result must be the representative below p
+	Soft    bool                             // with Canon: a non-canonical result is only counted (internal, non-canonicalising op)
+	NoAlias bool                             // skip aliasing patterns (API forbids them)
 }
 
 // UnOp is a unary operation z = op x.
@@ -176,6 +190,7 @@ type UnOp struct {
 	Do      func(z, x Elem)
 	Ref     func(out, x, p *big.Int) bool
 	Canon   bool
+	Soft    bool
 	NoAlias bool
 }
 
@@ -195,7 +210,7 @@ func (f *Field) replayWant(r Reporter, caseID func() string) bool {
 
 func (f *Field) residueEq(z Elem, want *big.Int, tmp *big.Int) (raw *big.Int, ok bool) {
 	raw = f.Raw(z)
-	tmp.Mod(raw, f.P)
+	f.norm(tmp, raw)
 	return raw, tmp.Cmp(want) == 0
 }
 
@@ -204,7 +219,7 @@ func (f *Field) inputKept(x, master Elem, red *big.Int, tmp *big.Int) bool {
 	if f.Same != nil && f.Same(x, master) {
 		return true
 	}
-	tmp.Mod(f.Raw(x), f.P)
+	f.norm(tmp, f.Raw(x))
 	return tmp.Cmp(red) == 0
 }
 
@@ -262,8 +277,12 @@ func (f *Field) CheckBin(r Reporter, op BinOp, xs, ys *Set, distinct bool) {
 					f.Report(r, op.Name, class, alias, rng, cid(), detail(alias, raw, ""))
 					return z, false
 				}
-				if op.Canon && raw.Cmp(f.P) >= 0 {
-					f.Report(r, op.Name, "non-canonical", alias, rng, cid(), detail(alias, raw, " (result not below p)"))
+				if op.Canon && f.norm(tmp, raw).Cmp(raw) != 0 {
+					if op.Soft {
+						r.Count(f.Name+"."+op.Name+".non-canonical-output", 1)
+					} else {
+						f.Report(r, op.Name, "non-canonical", alias, rng, cid(), detail(alias, raw, " (result not below p)"))
+					}
 				}
 				return z, true
 			}
@@ -346,8 +365,12 @@ func (f *Field) CheckUn(r Reporter, op UnOp, xs *Set, distinct bool) {
 				f.Report(r, op.Name, class, alias, rng, cid(), detail(alias, raw, ""))
 				return false
 			}
-			if op.Canon && raw.Cmp(f.P) >= 0 {
-				f.Report(r, op.Name, "non-canonical", alias, rng, cid(), detail(alias, raw, " (result not below p)"))
+			if op.Canon && f.norm(tmp, raw).Cmp(raw) != 0 {
+				if op.Soft {
+					r.Count(f.Name+"."+op.Name+".non-canonical-output", 1)
+				} else {
+					f.Report(r, op.Name, "non-canonical", alias, rng, cid(), detail(alias, raw, " (result not below p)"))
+				}
 			}
 			return true
 		}
@@ -413,7 +436,7 @@ func (f *Field) CheckPred(r Reporter, op Pred, xs *Set) {
 // of got with want and reports under the given op / alias names.
 func (f *Field) Expect(r Reporter, op, alias, caseID string, got Elem, want *big.Int, canon bool, inputs ...*big.Int) bool {
 	tmp := new(big.Int)
-	w := new(big.Int).Mod(want, f.P)
+	w := f.norm(new(big.Int), want)
 	raw, ok := f.residueEq(got, w, tmp)
 	rng := f.rng(inputs...)
 	det := func(extra string) func() (string, interface{}) {
@@ -430,7 +453,7 @@ func (f *Field) Expect(r Reporter, op, alias, caseID string, got Elem, want *big
 		f.Report(r, op, "wrong-residue", alias, rng, caseID, det(""))
 		return false
 	}
-	if canon && raw.Cmp(f.P) >= 0 {
+	if canon && f.norm(tmp, raw).Cmp(raw) != 0 {
 		f.Report(r, op, "non-canonical", alias, rng, caseID, det(" (result not below p)"))
 		return false
 	}
